@@ -241,6 +241,8 @@ func (n *RaftNode) Restore(rc io.ReadCloser) error {
 		if err := n.db.LoadSnapshot(reader); err != nil {
 			return err
 		}
+		// the store changed under the balloon: refresh its in-memory cache
+		n.balloon.RebuildCache()
 	}
 
 	n.loadState()
